@@ -584,7 +584,7 @@ func run(a *hlib.Args, e *hlib.Emitter) error {
 	}
 	var bigs []big
 	if a.N > 0 {
-		bigs = append(bigs, big{2500, []setting{{"builder", 16, 0, 0}, {"batches", 2, 64, 4}, {"batches", 16, 1000, 0}, {"batches", 1, 100000, 1}}})
+		bigs = append(bigs, big{2500, []setting{{"builder", 16, 0, 0}, {"batches", 2, 64, 4}, {"batches", 16, 64, 8}, {"batches", 16, 1000, 0}, {"batches", 1, 100000, 1}}})
 	}
 	if thorough {
 		bigs = append(bigs,
